@@ -55,24 +55,42 @@ ADAPTER_CLASSES = [
 
 
 def _class_info(tree, cls):
+    """what the class itself says about its aligner and its match objects.  Methods of the same class that are reached from
+    _aligner / match_to through self.<name>(...) or self.<name> are followed, so that extracting a helper does not hide a fact;
+    a class that defines _aligner without naming a Where member anywhere on that path is refused (no silent fall-back to a base)"""
     for node in tree.body:
         if isinstance(node, ast.ClassDef) and node.name == cls:
-            wheres, matches, reverse, upper = [], [], False, False
             bases = [b.id for b in node.bases if isinstance(b, ast.Name)]
-            for fn in node.body:
-                if isinstance(fn, ast.FunctionDef) and fn.name == "_aligner":
-                    for sub in ast.walk(fn):
-                        if (isinstance(sub, ast.Attribute) and sub.attr == "value" and isinstance(sub.value, ast.Attribute)
-                                and isinstance(sub.value.value, ast.Name) and sub.value.value.id == "Where"):
-                            wheres.append(sub.value.attr)
-                        if isinstance(sub, ast.Subscript) and isinstance(sub.slice, ast.Slice) and sub.slice.step is not None:
-                            reverse = True
-                if isinstance(fn, ast.FunctionDef) and fn.name == "match_to":
-                    for sub in ast.walk(fn):
-                        if isinstance(sub, ast.Call) and isinstance(sub.func, ast.Name) and sub.func.id in ("RemoveBeforeMatch", "RemoveAfterMatch"):
-                            matches.append(sub.func.id)
-                        if isinstance(sub, ast.Call) and isinstance(sub.func, ast.Attribute) and sub.func.attr == "upper":
-                            upper = True
+            methods = {fn.name: fn for fn in node.body if isinstance(fn, ast.FunctionDef)}
+
+            def reach(start):
+                seen, todo, out = set(), [start], []
+                while todo:
+                    name = todo.pop()
+                    if name in seen or name not in methods:
+                        continue
+                    seen.add(name)
+                    out.append(methods[name])
+                    for sub in ast.walk(methods[name]):
+                        if isinstance(sub, ast.Attribute) and isinstance(sub.value, ast.Name) and sub.value.id in ("self", cls) and sub.attr in methods:
+                            todo.append(sub.attr)
+                return out
+
+            wheres, matches, reverse, upper = [], [], False, False
+            for fn in reach("_aligner"):
+                for sub in ast.walk(fn):
+                    if isinstance(sub, ast.Attribute) and isinstance(sub.value, ast.Name) and sub.value.id == "Where":
+                        wheres.append(sub.attr)
+                    if isinstance(sub, ast.Subscript) and isinstance(sub.slice, ast.Slice) and sub.slice.step is not None:
+                        reverse = True
+            if "_aligner" in methods and not wheres:
+                raise TranslationError("adapters.py: %s._aligner names no Where member" % cls)
+            for fn in reach("match_to"):
+                for sub in ast.walk(fn):
+                    if isinstance(sub, ast.Call) and isinstance(sub.func, ast.Name) and sub.func.id in ("RemoveBeforeMatch", "RemoveAfterMatch"):
+                        matches.append(sub.func.id)
+                    if isinstance(sub, ast.Call) and isinstance(sub.func, ast.Attribute) and sub.func.attr == "upper":
+                        upper = True
             return bases, wheres, matches, reverse, upper
     raise TranslationError("adapters.py: class %s not found" % cls)
 
